@@ -208,6 +208,24 @@ known("KF-C03-05", "C03", W, None, r"malformed-output:(other|raw-control-char|em
 known("KF-C03-06", "C03", "enc-reject", None, r"unrepresentable-accepted", r"marshaler-output:nul-terminates @ feature:val:marshaler-output",
       'MarshalJSON returning "1\\x00x" is emitted as 1', "compact.go NUL sentinel", "other NUL-truncated marshaler output", "sentinel design")
 
+# ------------------------------------------------------------------ C13
+enc_deaths("C13", "KF-C13")
+V = "enc-variants"
+known("KF-C13-01", "C13", V, r"DisableHTMLEscape~plain", r"members-reordered", r".*",
+      'map[string]T with keys "<x" and "a": member order differs between Marshal and DisableHTMLEscape', "same root cause as KF-C01-ORDER (members sorted by escaped key bytes, and the escaping depends on the option)",
+      "other pure re-orderings of members under DisableHTMLEscape", "see KF-C01-ORDER")
+known("KF-C13-02", "C13", V, r"strip\(Colorize.*", r"members-reordered", r".*",
+      'map[uint]uint32{1:..,18446744071562067968:..}: Colorize(scheme) emits the members in another order', "internal/encoder/vm_color*/ map encoding sorts the coloured key bytes (markers included)",
+      "other pure re-orderings of members under Colorize", "sorting happens after key encoding")
+known("KF-C13-03", "C13", V, r"(strip\(Colorize.*|DisableHTMLEscape~plain)", r"bytes-differ:inside-string", r"feature:(string-opt-float-or-string|tags-zoo)",
+      'struct{Y string `json:",string"`} with Colorize: the markers are JSON-escaped inside the outer quotes; Tags key "<a&b>" under DisableHTMLEscape', "vm_color string-tag opcodes colour the inner value before quoting; struct keys are escaped at compile time",
+      "other differences inside ,string-quoted strings / HTML-special struct keys", "rare options")
+known("KF-C13-04", "C13", V, None, r"(bytes-differ:.+|panic:.+|variant-error|members-differ|members-reordered|variant-not-json|excessive-allocation)", r"(.* @ )?feature:(ptr-to-marshaler|array1-ptr-shaped-elem|nilable-marshalerV|marshalerP-by-value|tags-zoo|ptr2\+|struct-ptr-shaped|mapkey-marshaler|embedded-structof|embedded-conflicts)",
+      'MarshalIndent([2]*MP{nil,..}) gives "mp-nil" where Marshal gives null; Marshal([]any{(*TVS)(nil)}) = [null] but Marshal((*TVS)(nil)) = ""', "the four interpreters and the top-level/interface entry differ in nil and addressability handling of marshaler types and pointer-shaped values (KF-C01-PTRM, -MPVAL, -NILMV, -ARR1, -PTR2, -PSTRUCT, -MAPKEY, -EMB)",
+      "any other inconsistency between variants on types carrying one of these features", "see the C01 entries")
+known("KF-C13-05", "C13", V, None, r"(bytes-differ:.+|panic:.+|variant-error)", r"(/internal/encoder\.AppendMarshalJSONIndent|.*) @ feature:(ptr-to-marshaler|array1-ptr-shaped-elem)",
+      'MarshalIndent([]*json.RawMessage{nil}) panics (AppendMarshalJSONIndent lacks the nil check AppendMarshalJSON has)', "internal/encoder/encoder.go AppendMarshalJSONIndent", "see KF-C13-04", "see KF-C13-04")
+
 json.dump({"comment": "generated by tools/gen_known.py; never written at check time", "findings": F},
           open(os.path.join(os.path.dirname(os.path.abspath(__file__)), "..", "known_findings.json"), "w"), indent=1, ensure_ascii=False)
 print(len(F), "entries")
